@@ -10,8 +10,9 @@ Definition same_libs (a b:list lib) : bool :=
   forallb (fun x => existsb (lib_eqb x) b) a && forallb (fun x => existsb (lib_eqb x) a) b.
 Definition dtok_eqb (a b:dtok) : bool :=
   match a, b with NP x, NP y | TO x, TO y => adtype_eqb x y | _, _ => false end.
-Fixpoint dtoks_eqb (a b:list dtok) : bool :=
-  match a, b with [], [] => true | x::a', y::b' => dtok_eqb x y && dtoks_eqb a' b' | _, _ => false end.
+(* DTYPES as a set: order and repetition inside the tuple mean nothing to `dtype in DTYPES` *)
+Definition dtoks_eqb (a b:list dtok) : bool :=
+  forallb (fun x => existsb (dtok_eqb x) b) a && forallb (fun x => existsb (dtok_eqb x) a) b.
 (* what a configuration must export for class c *)
 Definition expected_class (n t:bool) (c:cls) : option (list dtok) :=
   match c with
